@@ -1730,6 +1730,8 @@ func (s *Server) clearExpiredClients(dt int64) {
 
 		if disconnected+int64(expire) < dt {
 			s.hooks.OnClientExpired(client)
+			client.ClearInflights() // the session ends: none of its state may survive [MQTT-4.1.0-2]
+			s.UnsubscribeClient(client)
 			s.Clients.Delete(id) // [MQTT-4.1.0-2]
 		}
 	}
